@@ -150,6 +150,11 @@ theorem discardSteps_neutral (i : Nat) : ∀ s ∈ discardSteps i, Neutral s := 
   simp only [discardSteps, List.mem_cons, List.not_mem_nil, or_false] at hs
   rcases hs with rfl | rfl | rfl | rfl | rfl | rfl <;> simp [Neutral]
 
+theorem startFailSteps_neutral (i : Nat) : ∀ s ∈ startFailSteps i, Neutral s := by
+  intro s hs
+  simp only [startFailSteps, List.mem_cons, List.not_mem_nil, or_false] at hs
+  rcases hs with rfl | rfl | rfl | rfl | rfl | rfl | rfl | rfl <;> simp [Neutral]
+
 /-- a prefix of `a ++ b` is a prefix of `a`, or `a` followed by a prefix of `b` -/
 theorem prefix_append_cases {α : Type} {pre a b : List α} (h : pre <+: a ++ b) :
     pre <+: a ∨ ∃ t, pre = a ++ t ∧ t <+: b := by
@@ -228,6 +233,15 @@ theorem op_discard {opn used : List Nat} {d : Dir} (i : Nat) (hb : Boundary opn 
     fun k hk => hsub k (List.mem_of_mem_erase hk),
     (neutral_run (discardSteps_neutral i) hg).mono
       fun k hk => ⟨hk.1, fun h => hk.2 (List.mem_of_mem_erase h)⟩⟩
+
+/-- a start that fails while writing the header uses up a fresh id and leaves no open recording -/
+theorem op_startFail {opn used : List Nat} {d : Dir} {i : Nat} (hb : Boundary opn used d) (_hi : i ∉ used) :
+    (∀ pre, pre <+: startFailSteps i → Safe (d.run pre)) ∧
+      Boundary opn (i :: used) (d.run (startFailSteps i)) := by
+  obtain ⟨hnd, hsub, hg⟩ := hb
+  refine ⟨fun pre hp => (neutral_prefix (startFailSteps_neutral i) hg hp).safe, hnd,
+    fun k hk => List.mem_cons_of_mem _ (hsub k hk), ?_⟩
+  exact (neutral_run (startFailSteps_neutral i) hg).mono fun k hk => ⟨List.mem_cons_of_mem _ hk.1, hk.2⟩
 
 /-- sequencing: a crash point of `a ++ rest` lies inside `a`, or inside `rest` after all of `a` -/
 theorem seq_safe {B : Dir → Prop} {d : Dir} {a rest pre : List Sys}
